@@ -15,7 +15,7 @@ RULE = (
     "own state {AA,BB} x baseline {0,>0} x turnout factor {0.3, =lower, 1.0, =upper, 3.0} x limits {0.5/2.0, 0.8/1.25} x policy {drop,zero} x "
     "threshold {50,100} x weight basis {turnout, two-party}, on a 6-unit background, executed at the real CombinedDataHandler.get_units; pairs of "
     "probes over a reduced alphabet; outlier models on/off with 19..23 reporting units; every (dem,gop,turnout,baseline) in {0,1,7}^k through the real "
-    "Estimandizer. Oracle: rule table of the statement, first applicable reason wins. non-trivial = the probe is not a plain fitting unit"
+    "Estimandizer; 30 runs through the public client with default and explicitly configured limits (including 0). Oracle: rule table of the statement, first applicable reason wins. non-trivial = the probe is not a plain fitting unit"
 )
 ASSUMPTIONS = [
     "outlier models: checked that flagged ids (as returned by the real _fit_outlier_detection_model) are excluded with the outlier reason unless an earlier reason applies, that a disabled model is never consulted and an enabled one is consulted when more than 20 modelled units report",
@@ -63,6 +63,11 @@ def cases(tier, seed):
         for tmodel, mmodel, basis in itertools.product([False, True], [False, True], ["turnout", "twoparty"]):
             out.append({"kind": "outlier", "n": n, "turnout_model": tmodel, "margin_model": mmodel, "basis": basis, "seed": seed})
     out.append({"kind": "estimandizer"})
+    # through the public client: explicitly configured limits (including 0, i.e. 'no lower limit') and the documented defaults
+    for lower in (None, 0, 0.3):
+        for upper in (None, 4.0):
+            for status in ("tf_below", "tf_at_lower", "tf_at_upper", "tf_above", "zero_baseline"):
+                out.append({"kind": "client", "lower": lower, "upper": upper, "status": status, "seed": seed})
     return out
 
 
@@ -250,6 +255,32 @@ def evaluate(case):
         cov["outlier_consulted"] += len(flagged)
         outcomes.append((sorted(consulted), sorted(reason)))
         nontrivial = True
+    elif kind == "client":
+        mp = {}
+        if case["lower"] is not None:
+            mp["turnout_factor_lower"] = case["lower"]
+        if case["upper"] is not None:
+            mp["turnout_factor_upper"] = case["upper"]
+        units = E.background(case["seed"], "G", 12, "AA2") + [E.make_probe(case["seed"], 0, case["status"], "pop0"), E.make_probe(case["seed"], 1, "nonrep0", "pop1")]
+        cfg = E.make_cfg(estimands=["turnout"], alphas=[0.7], aggregates=["postal_code", "unit"], model_parameters=mp)
+        res = E.run_estimates(units, cfg)
+        runs += 1
+        ctx = f"client limits lower={case['lower']} upper={case['upper']} probe={case['status']}"
+        if "error" in res:
+            viol("client-run-raised", f"{ctx}: {res['error']}")
+        else:
+            cats = R.categorize(units, cfg)
+            got = {r["geographic_unit_fips"]: (r["unit_category"], r["reporting"]) for r in E.tab_rows(res["ok"]["unit_data"])}
+            exp = {u: (c["category"], c["reporting"]) for u, c in cats.items()}
+            if got != exp:
+                diff = {u: (got.get(u), exp.get(u)) for u in set(got) | set(exp) if got.get(u) != exp.get(u)}
+                viol("client-limits-not-honoured", f"{ctx}: (got, expected) category/reporting per unit: {diff}")
+            pc = cats[[u for u in units if u.get("status") == case["status"]][0]["id"]]
+            cov["client_probe_" + pc["kind"]] += 1
+            if case["lower"] == 0:
+                cov["client_explicit_zero_limit"] += 1
+        outcomes.append(case["status"])
+        nontrivial = True
     else:
         import numpy as np
         import pandas as pd
@@ -297,4 +328,4 @@ def evaluate(case):
     return {"violations": V, "cov": dict(cov), "outcome": sha(outcomes)[:16], "nontrivial": nontrivial, "transitions": max(1, runs)}
 
 
-REQUIRED_COUNTERS = {"tf_exactly_at_limit": 200, "percent_exactly_at_threshold": 200, "precedence_cases": 200, "zero_denominators": 50, "outlier_consulted": 4, "units_flagged_by_both_outlier_models": 2, "feed_rows_without_results": 100}
+REQUIRED_COUNTERS = {"tf_exactly_at_limit": 200, "percent_exactly_at_threshold": 200, "precedence_cases": 200, "zero_denominators": 50, "outlier_consulted": 4, "units_flagged_by_both_outlier_models": 2, "feed_rows_without_results": 100, "client_explicit_zero_limit": 5, "client_probe_fit": 5, "client_probe_passthrough": 5}
